@@ -29,11 +29,11 @@ func c19Accepted(name string, op fsnotify.Op) bool {
 func HarnessC19() {
 	verifrt.Enable("concurrent")
 	for attempt := 0; attempt < verifrt.Attempts(); attempt++ {
-		c19Scenario()
+		c19Scenario(attempt)
 	}
 }
 
-func c19Scenario() {
+func c19Scenario(attempt int) {
 	n := verifrt.Param("N", 2)
 	k := verifrt.Param("K", 14)
 	var names [3]uint8
@@ -95,7 +95,10 @@ func c19Scenario() {
 			p := filepath.Join(userKeyboard, c19Names[names[i]])
 			switch ops[i] {
 			case fsnotify.Write:
-				if f, err := os.OpenFile(p, os.O_WRONLY|os.O_APPEND, 0); err == nil {
+				if attempt%2 == 1 {
+					// an in-place modification that leaves the file empty is a modification too
+					os.Truncate(p, 0)
+				} else if f, err := os.OpenFile(p, os.O_WRONLY|os.O_APPEND, 0); err == nil {
 					f.Write([]byte("y"))
 					f.Close()
 				}
